@@ -7,6 +7,37 @@ import vlib, tcheck
 PROP_V = 'properties/C01.v'
 
 
+def einsum_output_forms(ctx, quick):
+    """explicit output lists of einsum, including the empty one ('...->' asks for a scalar, np.einsum sums what is left): the answer is NumPy's or the
+    request is rejected -- never a tensor of another rank"""
+    import numpy as np, yastn, tgen
+    rng = ctx.rng
+    for rep in range(40 if quick else 400):
+        sym = rng.choice(['U1', 'Z2', 'dense', 'U1xU1'])
+        cfg = tgen.make_cfg(sym)
+        li, lj, lk = (tgen.rleg(rng, cfg, sym, maxD=3) for _ in range(3))
+        a = tgen.rtensor(rng, cfg, [li, lj.conj()], n=cfg.sym.zero())
+        b = tgen.rtensor(rng, cfg, [lj, lk.conj()], n=cfg.sym.zero())
+        c = tgen.rtensor(rng, cfg, [lj, li.conj()], n=cfg.sym.zero())
+        for es, ops_ in (('ij,jk->', (a, b)), ('ij,ji->', (a, c)), ('ij,jk->ki', (a, b)), ('ij,jk', (a, b)), ('ij,ji', (a, c))):
+            desc = dict(kind='einsum-output', subscripts=es, sym=sym, rep=rep)
+            ctx.case(desc, nontrivial=True)
+            ref = np.einsum(es, *[x.to_numpy(legs=dict(enumerate(lg))) for x, lg in zip(ops_, ([li, lj.conj()], [lj, lk.conj()] if ops_[1] is b else [lj, li.conj()]))])
+            try:
+                r = yastn.einsum(es, *ops_)
+            except yastn.YastnError:
+                ctx.count('einsum-output:rejected:' + es)
+                continue
+            ctx.count('einsum-output:answered:' + es)
+            if r.ndim != np.ndim(ref):
+                ctx.violation('einsum(%r) returns a tensor of rank %d, np.einsum on the dense operands gives rank %d (sym %s)' % (es, r.ndim, np.ndim(ref), sym), desc)
+                continue
+            lgs = {'ki': {0: lk.conj(), 1: li}, 'ik': {0: li, 1: lk.conj()}}.get(es.split('->')[1] if '->' in es else 'ik', {})
+            got = r.to_numpy(legs=lgs) if r.ndim else r.to_numpy()
+            if got.shape != np.shape(ref) or not np.array_equal(got, ref):
+                ctx.violation('einsum(%r) differs from np.einsum on the dense operands (sym %s)' % (es, sym), desc)
+
+
 def run(ctx):
     st = vlib.prepare(ctx, PROP_V)
     quick = ctx.tier == 'quick'
@@ -31,6 +62,7 @@ def run(ctx):
             # well-formed operands: the operation must not be rejected
             ctx.violation('%s case seed %d raised on well-formed operands: %s' % (r['kind'], r['seed'], r['detail'][:300]),
                           dict(kind=r['kind'], seed=r['seed'], opts=r['opts'], detail=r['detail'], describe=r['describe']))
+    einsum_output_forms(ctx, quick)
     # ---- L-block model correspondence for the linear operations (the proved part): blocks in, blocks out, exact
     nb = 1200 if quick else 15000
     brecs = tcheck.run_jobs([('add', s, {}, 'blocks_lin') for s in range(base, base + nb)])
